@@ -208,6 +208,10 @@ pub fn run(cfg: &Cfg) -> (Log, Meta) {
     log.violate(format!("C03/enumerate/{}", e.split(':').next().unwrap_or("?").replace("lunar year ", "")), "enumerate", e.clone(), "panic".into(), "every month of years 0..9999 constructible".into());
   }
   log.merge(par_range(10000, 25, |y, l| check_year(y as i64, cfg, l)));
+  let nh = cfg.tier.pick(30_000usize, 600_000usize);
+  log.merge(par_range(nh, 100, |i, l| crate::monitor::month_history::month_history("C03", i, cfg.seed, 1, 9998, l)));
+  log.floor("history.answers_judged", cfg.tier.pick(200_000, 4_000_000));
+  log.floor("history.refused_then_valid", cfg.tier.pick(10_000, 200_000));
   log.floor("month.leap_months", 2000);
   log.floor("month.29_day_months", 40_000);
   log.floor("month.30_day_months", 40_000);
@@ -215,10 +219,12 @@ pub fn run(cfg: &Cfg) -> (Log, Meta) {
   log.floor("year.leap_years", 2000);
   let meta = Meta {
     rule: format!(
-      "exhaustive: all {} lunar months of years 0..9999 (labels from get_leap_month, each built by from_ym and freshly by new) are checked for 29/30 length, abutment with the following month, next(1)/next(-1), next(n) for {} step counts against the enumerated sequence{}, index in year; every year's month list, month count, leap placement, day count, 353-355/383-385 length and distance to the next new year. Non-trivial = leap months (counted).",
+      "exhaustive: all {} lunar months of years 0..9999 (labels from get_leap_month, each built by from_ym and freshly by new) are checked for 29/30 length, abutment with the following month, next(1)/next(-1), next(n) for {} step counts against the enumerated sequence{}, index in year; every year's month list, month count, leap placement, day count, 353-355/383-385 length and distance to the next new year; {} {}. Non-trivial = leap months (counted), history sequences.",
       seq.months.len(),
       step_window(cfg.tier).len(),
-      if cfg.tier == Tier::Thorough { " plus 200,000 seeded-random (month, n) pairs over the whole range" } else { "" }
+      if cfg.tier == Tier::Thorough { " plus 200,000 seeded-random (month, n) pairs over the whole range" } else { "" },
+      nh,
+      crate::monitor::month_history::RULE_TEXT
     ),
     assumptions: vec!["oracle = the enumerated sequence itself and first-day differences (relations between observed results); the astronomy behind first days is C05's subject".into()],
     exhaustive: true,
